@@ -12,13 +12,21 @@
    Specification: Spec.v (wstep, spec_of, rd_sources, rd_signals, c_udata).
 
    Everything below holds for ALL byte strings, ALL ids, ALL orders of calls interleaved with any other
-   call, ALL user data.  Guards and what they exclude:
-     df_prog_ok p           strings fit a string block (length + 1 <= JLS_BUF_STRING_SIZE - 1; longer strings
-                            are refused with TOO_BIG and nothing is written: C13_unfit_source_rejected);
-                            the stored signal parameters fit uint32 (wrap-around is C16's subject);
-                            STRING/JSON user data is given as a C string with its terminator.
-     df_ud_valid_types p    no user-data call with storage type INVALID (0).  WITHOUT it the statement is
-                            FALSE on the current source: C13_user_data_roundtrip_refuted. *)
+   call, ALL user data.  The guard df_prog_ok p and what it excludes:
+     - definition strings are C strings (no NUL byte inside).  ANY length: strings that do not fit a string
+       block (length + 1 > JLS_BUF_STRING_SIZE - 1) are refused with TOO_BIG by the writer and rejected by
+       Spec.wstep alike, nothing is written (also C13_unfit_source_rejected);
+     - signal definitions pass jls_core_signal_def_align (df_align_ok: no rounding result above UINT32_MAX, buffer
+       sizes within UINT32_MAX / 2; the writer refuses the others and writes nothing - C13_oversize_signal_rejected -
+       while Spec.wstep does not model that refusal), and the stored parameters Spec.sp_align d fit their uint32
+       fields (kept as a hypothesis: that it follows from df_align_ok for uint32 inputs is C16's arithmetic and
+       is not re-proved here);
+     - STRING/JSON user data is given as a C string with its terminator.
+   History: before /repo commit 48f541e a user-data chunk with storage type INVALID (accepted by the writer at
+   any time) ended the reader's walk with an error and hid every later item (the theorem then needed the
+   guard "no such call"); now such a chunk is a placeholder that the reader skips and Spec.wstep stores no
+   item for it, and C13_user_data_roundtrip holds without that guard (C13_ud_placeholder_example).  Before
+   741edba jls_buf_rd_str looked at the byte after the payload; the decoders no longer depend on it. *)
 From Coq Require Import NArith List Bool.
 From JLS Require Import Generated Spec DefsModel DefsProofs.
 Import ListNotations.
@@ -38,15 +46,23 @@ Theorem C13_vocabulary_is :
      sg_src d < 65536 /\ sg_type d < 256 /\ sg_dtype d < 4294967296 /\ sg_rate d < 4294967296 /\
      sg_spd d < 4294967296 /\ sg_sdf d < 4294967296 /\ sg_eps d < 4294967296 /\ sg_sumdf d < 4294967296 /\
      sg_adf d < 4294967296 /\ sg_udf d < 4294967296) /\
+  (forall d, df_align_ok d = true <->
+     (sg_sdf (sp_align d) <=? 4294967295) && (sg_eps (sp_align d) <=? 4294967295)
+     && (sp_round_up (N.max (sp_dflt (dt_bits (sg_dtype d)) 0 (sg_spd d)) SAMPLES_PER_DATA_MIN) (sg_sdf (sp_align d)) <=? 4294967295)
+     && (sg_spd (sp_align d) * dt_bits (sg_dtype d) / 8 <=? 2147483647)
+     && (sg_eps (sp_align d) * (JLS_SUMMARY_FSR_COUNT * 8) <=? 2147483647) = true) /\
+  (forall d, df_src_nonul d <->
+     df_nonul (str_read (so_name d)) /\ df_nonul (str_read (so_vendor d)) /\ df_nonul (str_read (so_model d)) /\
+     df_nonul (str_read (so_version d)) /\ df_nonul (str_read (so_serial d))) /\
   (forall p, df_prog_ok p <->
      Forall (fun o => match o with
-                      | WSrc d => df_src_fits d
-                      | WSig d => df_sig_fits d /\ df_sig_ranges (sp_align d)
+                      | WSrc d => df_src_nonul d
+                      | WSig d => (df_nonul (str_read (sg_name d)) /\ df_nonul (str_read (sg_units d))) /\
+                                  df_sig_ranges (sp_align d) /\ df_align_ok d = true
                       | WUd u => (ud_stype u = JLS_STORAGE_TYPE_STRING \/ ud_stype u = JLS_STORAGE_TYPE_JSON) ->
                                  exists s, ud_data u = s ++ [0] /\ df_nonul s
                       | _ => True
-                      end) p) /\
-  (forall p, df_ud_valid_types p <-> forall u, In (WUd u) p -> ud_stype u <> JLS_STORAGE_TYPE_INVALID).
+                      end) p).
 Proof.
   repeat (split; [intros x; split; exact (fun h => h)|]). intros x; split; exact (fun h => h).
 Qed.
@@ -59,12 +75,11 @@ Proof. exact str_roundtrip. Qed.
 Print Assumptions C13_str_roundtrip.
 
 (* any byte list, including NUL and 0x1f bytes anywhere: what comes back is the C string df_cstr (the bytes
-   before the first NUL - strlen), and exactly the encoding is consumed; the junk byte [j] stored after the
-   payload is never looked at *)
-Theorem C13_str_roundtrip_any : forall j s rest, df_str_fits (df_cstr (str_read s)) ->
-  df_rd_str j (DfIn (df_enc_str s ++ rest)) = DfOk (df_cstr (str_read s), DfIn rest) /\
+   before the first NUL - strlen), and exactly the encoding is consumed *)
+Theorem C13_str_roundtrip_any : forall s rest, df_str_fits (df_cstr (str_read s)) ->
+  df_rd_str (df_enc_str s ++ rest) = DfOk (df_cstr (str_read s), rest) /\
   df_dec_str (df_enc_str s ++ rest) = Some (df_cstr (str_read s), rest).
-Proof. exact (fun j s rest H => conj (rd_str_enc j s rest H) (str_roundtrip_any s rest H)). Qed.
+Proof. exact (fun s rest H => conj (rd_str_enc s rest H) (str_roundtrip_any s rest H)). Qed.
 Print Assumptions C13_str_roundtrip_any.
 
 Theorem C13_str_too_big_rejected : forall s rest, ~ df_str_fits (df_cstr (str_read s)) ->
@@ -86,13 +101,13 @@ Proof. exact (conj ex_str_1f (conj ex_str_null (conj ex_str_nul_inside (conj ex_
 Print Assumptions C13_str_examples.
 
 (* ---- 2. definition payloads ---- *)
-Theorem C13_source_def_roundtrip : forall j d, df_src_fits d ->
-  df_dec_source_def j (so_id d) (df_enc_source_def d) = DfOk (df_src_read d).
+Theorem C13_source_def_roundtrip : forall d, df_src_fits d ->
+  df_dec_source_def (so_id d) (df_enc_source_def d) = DfOk (df_src_read d).
 Proof. exact source_def_roundtrip. Qed.
 Print Assumptions C13_source_def_roundtrip.
 
-Theorem C13_signal_def_roundtrip : forall j d, df_sig_ranges d -> df_sig_fits d ->
-  df_dec_signal_def j (sg_id d) (df_enc_signal_def d) = DfOk (df_sig_read d).
+Theorem C13_signal_def_roundtrip : forall d, df_sig_ranges d -> df_sig_fits d ->
+  df_dec_signal_def (sg_id d) (df_enc_signal_def d) = DfOk (df_sig_read d).
 Proof. exact signal_def_roundtrip. Qed.
 Print Assumptions C13_signal_def_roundtrip.
 
@@ -105,10 +120,10 @@ Print Assumptions C13_str_out_is.
 Example C13_def_examples :
   (df_src_fits df_ex_src /\
    df_enc_source_def df_ex_src = repeat 0 64 ++ [206; 169; 0; 31; 0; 31; 0; 31; 49; 31; 0; 31; 45; 0; 31] /\
-   df_dec_source_def 0 7 (df_enc_source_def df_ex_src) = DfOk (df_src_read df_ex_src)) /\
+   df_dec_source_def 7 (df_enc_source_def df_ex_src) = DfOk (df_src_read df_ex_src)) /\
   (df_sig_ranges (sp_align df_ex_sig) /\ df_sig_fits (sp_align df_ex_sig) /\
    (sg_spd (sp_align df_ex_sig), sg_sdf (sp_align df_ex_sig), sg_eps (sp_align df_ex_sig)) = (1024, 128, 640) /\
-   df_dec_signal_def 0 5 (df_enc_signal_def (sp_align df_ex_sig)) = DfOk (df_sig_read (sp_align df_ex_sig))).
+   df_dec_signal_def 5 (df_enc_signal_def (sp_align df_ex_sig)) = DfOk (df_sig_read (sp_align df_ex_sig))).
 Proof. exact (conj ex_source_def ex_signal_def). Qed.
 Print Assumptions C13_def_examples.
 
@@ -124,12 +139,12 @@ Theorem C13_refines_spec : forall p, df_prog_ok p ->
               end) /\
   df_log_src (dfw_log w) = map (fun d => (so_id d, df_enc_source_def d)) (c_sources c) /\
   df_log_sig (dfw_log w) = map (fun s => (sg_id (ss_def s), df_enc_signal_def (ss_def s))) (c_signals c) /\
-  df_log_ud (dfw_log w) = (0, []) :: map (fun u => (ud_meta u + 4096 * ud_stype u, ud_data u)) (c_udata c).
+  (exists r, df_log_ud (dfw_log w) = (0, []) :: r /\ df_ud_walk r = (c_udata c, 0)).
 Proof. exact refines_spec. Qed.
 Print Assumptions C13_refines_spec.
 
-Theorem C13_defs_roundtrip : forall j p, df_prog_ok p ->
-  exists r, df_scan j (dfw_log (fst (df_run_prog p))) = DfOk r /\
+Theorem C13_defs_roundtrip : forall p, df_prog_ok p ->
+  exists r, df_scan (dfw_log (fst (df_run_prog p))) = DfOk r /\
     df_rd_sources r = map df_src_read (rd_sources (spec_of p)) /\
     df_rd_signals r = map df_sig_read (map ss_def (rd_signals (spec_of p))) /\
     (forall id, df_rd_signal r id =
@@ -150,6 +165,12 @@ Theorem C13_unfit_source_rejected : forall w d, so_id d < JLS_SOURCE_COUNT -> df
   df_is_defd (dfw_src (fst (df_step w (DfSrc d))) (so_id d)) = false.
 Proof. exact unfit_source_rejected. Qed.
 Print Assumptions C13_unfit_source_rejected.
+
+Theorem C13_oversize_signal_rejected : forall w d, df_align_ok d = false ->
+  exists rc, rc <> 0 /\ snd (df_step w (DfSig d)) = DfRc rc /\ dfw_log (fst (df_step w (DfSig d))) = dfw_log w /\
+             (df_is_defd (dfw_sig w (sg_id d)) = false -> df_is_defd (dfw_sig (fst (df_step w (DfSig d))) (sg_id d)) = false).
+Proof. exact oversize_signal_rejected. Qed.
+Print Assumptions C13_oversize_signal_rejected.
 
 (* ---- 4. identity rules: error code AND unchanged state (tables, log, data trace) ---- *)
 Theorem C13_dup_source_rejected : forall w d ops d',
@@ -184,48 +205,51 @@ Proof. exact step_never_faults. Qed.
 Print Assumptions C13_step_never_faults.
 
 (* ---- 5. user data ---- *)
-Theorem C13_user_data_roundtrip : forall j p, df_prog_ok p -> df_ud_valid_types p ->
-  exists r, df_scan j (dfw_log (fst (df_run_prog p))) = DfOk r /\
+Theorem C13_user_data_roundtrip : forall p, df_prog_ok p ->
+  exists r, df_scan (dfw_log (fst (df_run_prog p))) = DfOk r /\
             df_rd_user_data r = (c_udata (spec_of p), 0).
 Proof. exact user_data_roundtrip. Qed.
 Print Assumptions C13_user_data_roundtrip.
 
 (* what Spec.v stores per accepted call: tag land 0xfff, storage type, the bytes (for STRING/JSON the C
-   string with its terminator: size strlen + 1), appended in call order *)
+   string with its terminator: size strlen + 1), appended in call order; storage type INVALID: accepted,
+   no item *)
 Theorem C13_user_data_item : forall c u, stype_ok_ud (ud_stype u) = true ->
   c_udata (fst (wstep c (WUd u))) =
-  c_udata c ++ [{| ud_meta := N.land (ud_meta u) 4095; ud_stype := ud_stype u;
-                   ud_data := if ud_stype u =? 0 then [] else ud_data u |}].
+  if ud_stype u =? 0 then c_udata c
+  else c_udata c ++ [{| ud_meta := N.land (ud_meta u) 4095; ud_stype := ud_stype u; ud_data := ud_data u |}].
 Proof. exact user_data_item. Qed.
 Print Assumptions C13_user_data_item.
 
-(* FALSE without df_ud_valid_types: the writer accepts storage type INVALID, the reader then stops *)
-Theorem C13_user_data_roundtrip_refuted :
-  exists p, df_prog_ok p /\
-    map df_accepted (snd (df_run_prog p)) = [true; true; true] /\
-    length (c_udata (spec_of p)) = 3%nat /\
-    match df_scan 0 (dfw_log (fst (df_run_prog p))) with
-    | DfOk r => df_rd_user_data r = ([{| ud_meta := 1; ud_stype := 1; ud_data := [7] |}], JLS_ERROR_PARAMETER_INVALID)
-    | _ => False
-    end.
-Proof. exact user_data_roundtrip_refuted. Qed.
-Print Assumptions C13_user_data_roundtrip_refuted.
+(* the former refutation witness: a placeholder between two items is a chunk in the file and both items
+   come back *)
+Example C13_ud_placeholder_example :
+  df_prog_ok df_ud_placeholder_prog /\
+  map df_accepted (snd (df_run_prog df_ud_placeholder_prog)) = [true; true; true] /\
+  df_log_ud (dfw_log (fst (df_run_prog df_ud_placeholder_prog))) = [(0, []); (4097, [7]); (1, []); (4098, [5])] /\
+  match df_scan (dfw_log (fst (df_run_prog df_ud_placeholder_prog))) with
+  | DfOk r => df_rd_user_data r = ([{| ud_meta := 1; ud_stype := 1; ud_data := [7] |};
+                                    {| ud_meta := 2; ud_stype := 1; ud_data := [5] |}], 0)
+  | _ => False
+  end.
+Proof. exact ex_ud_placeholder. Qed.
+Print Assumptions C13_ud_placeholder_example.
 
-(* outside the property (payloads not made by the writer), recorded because the model shows it:
-   jls_buf_rd_str looks at the byte after the payload and can leave the cursor beyond its end *)
-Theorem C13_foreign_payload_overrun :
-  df_dec_source_def 31 0 (repeat 0 64 ++ [65; 0]) = DfOob /\
-  df_dec_source_def 0 0 (repeat 0 64 ++ [65; 0]) = DfErr JLS_ERROR_EMPTY.
-Proof. exact foreign_payload_overrun. Qed.
-Print Assumptions C13_foreign_payload_overrun.
+(* outside the property (payloads not made by the writer): a string whose NUL is the last payload byte -
+   nothing after the payload is looked at *)
+Theorem C13_foreign_payload_no_overrun :
+  df_dec_source_def 0 (repeat 0 64 ++ [65; 0]) = DfErr JLS_ERROR_EMPTY /\
+  df_rd_str [65; 0] = DfOk ([65], []).
+Proof. exact foreign_payload_no_overrun. Qed.
+Print Assumptions C13_foreign_payload_no_overrun.
 
 (* the hypotheses are satisfiable by a non-trivial program, and the conclusions computed on it *)
 Example C13_program_example :
-  df_prog_ok df_ex_prog /\ df_ud_valid_types df_ex_prog /\
+  df_prog_ok df_ex_prog /\
   snd (df_run_prog df_ex_prog) =
     [DfRc 0; DfRc JLS_ERROR_NOT_FOUND; DfRc 0; DfRc JLS_ERROR_NOT_FOUND; DfRc 0; DfRc 0; DfRc 0;
      DfRc JLS_ERROR_ALREADY_EXISTS; DfRc JLS_ERROR_ALREADY_EXISTS; DfRc 0; DfRc 0] /\
-  match df_scan 0 (dfw_log (fst (df_run_prog df_ex_prog))) with
+  match df_scan (dfw_log (fst (df_run_prog df_ex_prog))) with
   | DfOk r => map so_id (df_rd_sources r) = [0; 3; 7] /\ map sg_id (df_rd_signals r) = [0; 2; 5] /\
               df_rd_user_data r = ([{| ud_meta := 4095; ud_stype := 2; ud_data := [104; 105; 0] |};
                                     {| ud_meta := 5; ud_stype := 1; ud_data := [] |}], 0) /\
